@@ -69,8 +69,7 @@ std::string RunCsvFault(const vh::JVal& scn, const std::string& kind, long long 
 		std::unique_ptr<FailingOutBuf> obuf;
 		std::unique_ptr<std::ostream> ostr;
 		StreamHolder holder;
-		std::string outMem;
-		outMem.reserve(1 << 16);
+		std::string outMem;		// not pre-reserved: growing the caller's output string is a fault point of the save
 		std::vector<Row> loaded;
 		const bool streamIn = !isSave && (kind == "failat" || kind == "throwat" || wantStream);
 		const bool streamOut = isSave && (kind == "ofailat" || kind == "othrowat" || wantStream);
@@ -88,8 +87,9 @@ std::string RunCsvFault(const vh::JVal& scn, const std::string& kind, long long 
 		catch (...) { allocsInCall = AllocSinceArm(); AllocDisarm(); exc = DescribeException(); }
 		rowsLoaded = loaded.size();
 		{ std::vector<Row>().swap(loaded); }
+		if (isSave && !streamOut) produced = outMem.size();
+		{ std::string().swap(outMem); }
 		if (ostr) { streamBad = ostr->fail(); produced = obuf->data.size(); faultHits = obuf->failHits; }
-		else if (isSave) produced = outMem.size();
 		if (holder.scripted) faultHits = holder.scripted->failHits;
 		if (holder.stream) streamBad = holder.stream->bad();
 		// the partly loaded target was destroyed above; streams and buffers existed before the call and are destroyed at the end of this block
